@@ -227,9 +227,14 @@ def run(ctx) -> None:
     work = [SC]
     # what a component's start() calls to start work that belongs to the startup
     for nm_ in ("start_service_task", "start_background_task_factory"):
-        m_ = ctx.p.method(an.Context, nm_)
-        if m_ is not None:
-            work.append(m_)
+        for cls_ in (an.Context, an.ComponentContext):
+            m_ = cls_.methods.get(nm_) or ctx.p.method(cls_, nm_)
+            if m_ is not None:
+                work.append(m_)
+        # ... and the module-level forwarders of the same name
+        for g_ in ctx.p.all_functions():
+            if g_.cls is None and g_.parent is None and g_.name == nm_:
+                work.append(g_)
     while work:
         f = work.pop()
         if id(f) in seen:
@@ -302,7 +307,20 @@ def run(ctx) -> None:
         cancels = [n for n in sccfg.live_nodes() if any(call_name(c) == "cancel" for c, _ in a.node_calls(SC, sccfg, n))]
         st_nodes = [n for n in sccfg.live_nodes() if any(c.kind == "func" and c.func is starter for _, c in a.node_calls(SC, sccfg, n))]
         ok_cancel = len(cancels) == 1 and bool(st_nodes) and sccfg.all_paths_pass(sccfg.entry, [cancels[0].id], [x.id for x in st_nodes], edge_ok=normal) and all(cancels[0].id not in sccfg.reach([d for d, lab in x.succ if lab == "e"], edge_ok=lambda s, d, lab: lab in ("e", "h")) for x in st_nodes)
+        if cancels:
+            # the watchdog's group exists only when a timeout was given: the cancel must be
+            # guarded accordingly, or a startup without timeout crashes after it succeeded
+            from .discharge import controlling_conditions as _cc5
+
+            recv_names = {x.id for c_ in walk_own(SC.node) if isinstance(c_, ast.Call) and call_name(c_) == "cancel" for x in ast.walk(c_.func) if isinstance(x, ast.Name)}
+            conds5 = _cc5(sccfg, cancels[0])
+            guarded5 = any((truth and isinstance(e_, ast.Name) and e_.id in recv_names | {tparam}) or (not truth and isinstance(e_, ast.Compare) and isinstance(e_.ops[0], ast.Is) and isinstance(e_.left, ast.Name) and e_.left.id in recv_names | {tparam}) for e_, truth, _t in conds5)
+            unconditional_group = not any(isinstance(e_, ast.Name) and e_.id == tparam for e_, _tr, _t in _cc5(sccfg, wn))
+            rep.check("C07.R5", guarded5 or unconditional_group, SC, cancels[0].ast, "the watchdog scope is cancelled only when it exists (a timeout was given)", "the watchdog's task group is cancelled even when no timeout was given (it is None then): a startup without timeout fails after it has succeeded")
         rep.check("C07.R5", ok_cancel, SC, cancels[0].ast if cancels else SC.node, "the watchdog's scope is cancelled only after the starter completed (a startup that finished is never timed out, one that has not is never cancelled by anything else)", "the watchdog scope is cancelled on some other path, or never")
     # ------------------------------------------------------------------ R6 registrations survive
     include_rules(ctx, "c02", "C07.R6", only=("C02.R4",))
+    # a service task started by a component is owned by the surrounding context only if
+    # nothing can interrupt start_service_task between the start and the finalizer's registration
+    include_rules(ctx, "c08", "C07.R6", only=("C08.R3",))
     rep.assume("anyio: when a child task raises, the task group cancels the remaining children and re-raises at its exit; cancellation is not an Exception subclass")
